@@ -20,3 +20,20 @@ spec fn appended(old_d: Seq<Diagnostic>, new_d: Seq<Diagnostic>, xs: Seq<DP>) ->
     &&& new_d.len() == old_d.len() + xs.len()
     &&& forall |i: int| old_d.len() <= i < new_d.len() ==> dp(#[trigger] new_d[i]) == xs[i - old_d.len()]
 }
+
+// ---------- type well-formedness (arity) ----------
+// Array: 1 child; List: 0 or 1; Map: 0 or 2; every other kind: no children -- at every depth.
+spec fn arity_ok(t: ast::Type) -> bool {
+    match t.kind {
+        TypeKind::Array => t.generic_types@.len() == 1,
+        TypeKind::List => t.generic_types@.len() == 0 || t.generic_types@.len() == 1,
+        TypeKind::Map => t.generic_types@.len() == 0 || t.generic_types@.len() == 2,
+        _ => t.generic_types@.len() == 0,
+    }
+}
+
+spec fn type_wf(t: ast::Type) -> bool
+    decreases t
+{
+    arity_ok(t) && forall |i: int| 0 <= i < t.generic_types@.len() ==> type_wf(#[trigger] t.generic_types@[i])
+}
